@@ -294,7 +294,7 @@ def project_cfg(cinco, cfg, root=None):
     return {"t": "cfg", "vals": vals, "dflt": sorted(dflt), "dyn": dyn}
 
 
-def read_only_queries(cinco, cfg, path=()):
+def read_only_queries(cinco, cfg, path=(), root=None):
     """The library's read-only entry points, called on a configuration between operations.  In the
     specification they are stuttering steps (Query / CheckCollect leave the state unchanged), so
     calling them must not be observable - and it warms every cache or memo the library may keep.
@@ -319,6 +319,16 @@ def read_only_queries(cinco, cfg, path=()):
             return "config[%r] differs from attribute access" % ".".join(path + (key,))
         if key not in cfg:
             return "%r in config is False" % ".".join(path + (key,))
+        if root is not None:
+            # the dotted route from the root and the direct route must agree about the status too
+            dotted_full = ".".join(path + (key,))
+            try:
+                if cinco.is_value_defined(root, dotted_full) != cinco.is_value_defined(cfg, key):
+                    return "is_value_defined(root, %r) differs from is_value_defined(sub-configuration, %r)" % (dotted_full, key)
+                if dotted_full not in root:
+                    return "%r in root configuration is False" % dotted_full
+            except Exception as exc:  # noqa
+                return "is_value_defined(root, %r) raised %s" % (dotted_full, type(exc).__name__)
         if isinstance(value, cinco.Config):
             for sub, _ in list(value):
                 dotted = key + "." + sub
@@ -328,7 +338,7 @@ def read_only_queries(cinco, cfg, path=()):
                     return "reading %r raised %s" % (dotted, type(exc).__name__)
                 if a is not b and a != b:
                     return "config[%r] differs from chained attribute access" % ".".join(path + (dotted,))
-            problem = problem or read_only_queries(cinco, value, path + (key,))
+            problem = problem or read_only_queries(cinco, value, path + (key,), root if root is not None else cfg)
     return problem
 
 
